@@ -1,4 +1,4 @@
-import Vflow.Proofs.SflowSpec
+import Vflow.Proofs.SflowSpec2
 /-!
 # C18 — the sFlow type filter removes exactly the listed sample types
 
@@ -9,6 +9,15 @@ body succeeds and ends where its declared length says — which is what "well-fo
 Under that hypothesis the theorem holds for **every** filter list and **every** octet string, errors
 included; without it the statement is false (`framing_needed`).  When the filter lists neither flow (1)
 nor counter (2) samples no hypothesis is needed at all.
+
+What the hypothesis still asks since the F19 repairs: that the declared length of a skipped sample is its
+real length and that the records in it can be *read* (no EOF inside a record, no sampled header longer
+than 1500 octets).  It no longer asks anything of the sampled headers themselves, nor of the lengths of
+extended-router records: a flow sample with a header the dissector rejects (truncated, not IP, …) used to
+fail the unfiltered decode with the dissector's error while the filtered decode skipped it and succeeded —
+a difference the hypothesis had to exclude; now such a sample decodes, ends where its length says, and is
+framed (`filter_undissectable`, and `filter_encode` / `filter_encode'` over the widened well-formed
+datagrams).  `framing_needed` is unchanged: a wrong declared length still separates the two decoders.
 -/
 namespace Vflow.C18
 open Vflow Vflow.Sflow
@@ -65,6 +74,11 @@ samples are framed -/
 theorem filter_encode (f : List Nat) (d : ADatagram) (hwf : d.WF) :
     decode f (encodeSflow d) = .ok (dropTypes f (expected d)) := decode_enc f d hwf
 
+/-- **C18 (well-formed datagrams, abstract headers)**: the same over `ADatagram'`, whose raw-header records
+are abstract headers — representable or undissectable (`ABad`) -/
+theorem filter_encode' (f : List Nat) (d : ADatagram') (hwf : d.WF) :
+    decode f (encodeSflow' d) = .ok (dropTypes f (expected' d)) := decode_enc' f d hwf
+
 /-- a datagram: flow sample (extended switch record) followed by a counter sample (processor record) -/
 def witness : Bytes :=
   [0,0,0,5, 0,0,0,1, 10,0,0,1, 0,0,0,0, 0,0,0,1, 0,0,0,2, 0,0,0,2,
@@ -79,6 +93,25 @@ exactly as without the filter -/
 example : decode [1] witness = (decode [] witness).map (dropTypes [1]) ∧
     (decode [] witness).map (fun d => (d.samples.length, d.counters.length)) = .ok (1, 1) ∧
     (decode [1] witness).map (fun d => (d.samples.length, d.counters.length)) = .ok (0, 1) := by
+  decide
+
+/-- a datagram: a flow sample whose only record is a raw header of 14 octets (Ethernet only — the
+dissector's `errShortIPv4HeaderLength`) followed by a counter sample (processor record) -/
+def witnessUndissectable : Bytes :=
+  [0,0,0,5, 0,0,0,1, 10,0,0,1, 0,0,0,0, 0,0,0,1, 0,0,0,2, 0,0,0,2,
+   0,0,0,1, 0,0,0,72, 0,0,0,7, 0,0,0,0, 0,0,0,1, 0,0,0,2, 0,0,0,0, 0,0,0,3, 0,0,0,4, 0,0,0,1,
+     0,0,0,1, 0,0,0,32, 0,0,0,1, 0,0,0,64, 0,0,0,4, 0,0,0,14, 2,0,0,0,0,1, 2,0,0,0,0,2, 8,0, 0,0,
+   0,0,0,2, 0,0,0,48, 0,0,0,9, 2,0,0,17, 0,0,0,1,
+     0,0,3,233, 0,0,0,28, 0,0,0,1, 0,0,0,2, 0,0,0,3, 0,0,0,0,0,0,0,4, 0,0,0,0,0,0,0,5]
+
+set_option maxRecDepth 20000 in
+/-- **C18 (undissectable header in a filtered sample — F19a)**: the filtered and the unfiltered decoder
+agree on the witness, and the unfiltered one reports the flow sample (without a `RawHeader`) and the
+counter sample; before the repair it was `err ip4Short` against a datagram with one counter sample -/
+theorem filter_undissectable :
+    decode [1] witnessUndissectable = (decode [] witnessUndissectable).map (dropTypes [1]) ∧
+    (decode [] witnessUndissectable).map (fun d => (d.samples.map (·.recs.raw), d.counters.length)) = .ok ([none], 1) ∧
+    (decode [1] witnessUndissectable).map (fun d => (d.samples.length, d.counters.length)) = .ok (0, 1) := by
   decide
 
 /-- the framing hypothesis is necessary: a flow sample whose declared length (0) is not its real length
